@@ -216,6 +216,14 @@ def statedb_cases(rng, n):
                 del vs["var0"]
             rounds.append({"accounts": accts, "vars": vs})
         c = {"rounds": rounds, "qaccts": names + ["ctr", "nobody"], "qvars": vnames + ["novar"], "contract": "ctr"}
+        # malformed storage keys (GetStateQuery forwards the client's StorageKeys unchanged): proper
+        # prefixes of stored keys (0, 1, 4, 31 bytes) and extensions (33, 64 bytes)
+        bad = [""]
+        for v in vnames + ["novar"]:
+            full = hashlib.sha256(v.encode()).digest()
+            bad += [full[:1].hex(), full[:4].hex(), full[:31].hex(), (full + b"\x01").hex(), (full + b"\x00").hex(),
+                    (full + bytes(rng.randrange(256) for _ in range(32))).hex()]
+        c["qbadkeys"] = bad
         if not cases or rng.random() < 0.75:
             # puts / storage writes left PENDING on the live StateDB after the last commit: proofs are
             # asked before Update ("buffered") and between Update and Commit ("updated"), root nil
@@ -268,6 +276,20 @@ def statedb_predicates(cases, obs):
                                   "root=nil (latest) differs from the answer for the same root passed explicitly" % o["phase"],
                                   {"case": c, "obs": o, "other": agree[k][1]}))
                 agree.setdefault(k, (ans, o))
+            if o["kind"] == "badvar":
+                klen = len(o["name"]) // 2
+                if "panic in GetVarAndProof" in o["err"]:
+                    fails.append(("statedb-proof-malformed-key-panic", "GetVarAndProof panics on a storage key of %d bytes (GetStateQuery "
+                                  "forwards the client's StorageKeys unchanged)" % klen, rep))
+                elif o["err"]:
+                    pass        # an error is an acceptable answer to a malformed key
+                elif o["inclusion"]:
+                    fails.append(("statedb-proof-malformed-key-inclusion", "the node answers Inclusion=true for a storage key of %d bytes that was "
+                                  "never written (proof verifies: %s)" % (klen, o["verified"]), rep))
+                elif not o["verified"]:
+                    fails.append(("statedb-proof-malformed-key-rejected", "the absence proof returned for a storage key of %d bytes is not accepted "
+                                  "against the storage root (%s)" % (klen, o["value"] or "verdict false"), rep))
+                continue
             if o.get("phase") == "updated":
                 # F37g: between Update and Commit the new leaf data is not in the store yet
                 pnd = c["pending"]
